@@ -143,6 +143,15 @@ func (c *Ctx) Violation(key, detail string, cas interface{}) {
 	if c.R.ViolationKeys[key] <= int64(c.maxPer) && len(c.R.Violations) < 400 {
 		c.R.Violations = append(c.R.Violations, Violation{Key: key, Detail: detail, Case: jsonable(cas)})
 	}
+	if c.R.ViolationKeys[key] == 1 {
+		// a violation is often followed by worse (a corrupted instance, a poisoned lock): what has been
+		// found so far must survive the death of this worker
+		if out := os.Getenv("VERIF_OUT"); out != "" {
+			if b, err := json.Marshal(&c.R); err == nil {
+				os.WriteFile(out+".partial", b, 0o644)
+			}
+		}
+	}
 }
 
 // InFlight writes the case about to be executed to the worker's in-flight
